@@ -786,7 +786,10 @@ LEVEL_TEXT = ("Coq proofs about an executable Gallina transcription of tachys' S
               "for ALL views and ALL schedules of completions and polls — no lost wake-up (a Pending poll leaves the waker "
               "with an incomplete future owned by the stream; a wake-driven executor never stalls), termination within "
               "4|v|+4 polls once all futures are complete, and, outside the decidable class of finding F-C07-a (refuted by "
-              "witness inside it), in-order chunks concatenate to the resolved render. Tied to /repo by running the extracted "
+              "witness inside it), in-order chunks concatenate to the resolved render and the out-of-order stream after its "
+              "replacement scripts (modelled by their effect on the document) is the resolved render, with exactly one fallback "
+              "region per unresolved chunk at every moment; for every well-formed view the scripts always find their markers "
+              "and leave no marker behind (suspense ids are unique: antichain invariant). Tied to /repo by running the extracted "
               "model and the real code (real tachys views and StreamBuilder, oneshot-controlled futures, hand-polled stream, "
               "counting waker) on the same thousands of trees x schedules every run, plus a model-independent oracle that parses "
               "the streamed bytes like a browser (incremental parse, inert <template>, re-implemented replacement script), "
